@@ -273,7 +273,8 @@ func build(s reqSpec) protocol.Message {
 	case "heartbeat":
 		return &heartbeat.Request{GroupID: s.group}
 	case "leavegroup":
-		return &leavegroup.Request{GroupID: s.group}
+		// the members are named the way v3+ does; below v3 Prepare has to move the first one into MemberID
+		return &leavegroup.Request{GroupID: s.group, Members: []leavegroup.RequestMember{{MemberID: s.group + "-a"}, {MemberID: s.group + "-b"}}}
 	case "syncgroup":
 		return &syncgroup.Request{GroupID: s.group}
 	case "offsetdelete":
@@ -283,7 +284,7 @@ func build(s reqSpec) protocol.Message {
 	case "deletegroups":
 		return &deletegroups.Request{GroupIDs: s.groups}
 	case "describegroups":
-		return &describegroups.Request{Groups: s.groups}
+		return &describegroups.Request{Groups: s.groups, IncludeAuthorizedOperations: true}
 	case "initproducerid":
 		return &initproducerid.Request{TransactionalID: s.txn}
 	case "addpartitionstotxn":
@@ -321,7 +322,8 @@ func build(s reqSpec) protocol.Message {
 	case "alteruserscramcredentials":
 		return &alteruserscramcredentials.Request{}
 	case "describeconfigs":
-		r := &describeconfigs.Request{}
+		// every top-level option set: the parts Split makes have to carry them
+		r := &describeconfigs.Request{IncludeSynonyms: true, IncludeDocumentation: true}
 		for _, x := range s.resources {
 			t, _ := strconv.Atoi(x[0])
 			r.Resources = append(r.Resources, describeconfigs.RequestResource{ResourceType: int8(t), ResourceName: x[1]})
@@ -788,7 +790,7 @@ func (s *scenario) send(spec reqSpec) {
 	var got []string
 	for _, e := range s.c.Since(mark) {
 		if e.ApiKey == key && !(e.First && key == protocol.ApiVersions) {
-			got = append(got, fmt.Sprintf("b%d~%s@v%d", e.Broker, e.Addr, e.Version))
+			got = append(got, fmt.Sprintf("b%d~%s@v%d%s", e.Broker, e.Addr, e.Version, bodyFormat(e.Req)))
 		}
 	}
 	sort.Strings(got)
@@ -821,6 +823,50 @@ func (s *scenario) send(spec reqSpec) {
 	default:
 		emit(op, dash(strings.Join(got, ","))+fcSuffix)
 	}
+}
+
+// bodyFormat renders the parts of a received request's body that Prepare derives from the negotiated version, as the
+// fake broker decoded them from the wire: the magic of the record sets of a Produce request ("#m2", "#m1.2" when the
+// partitions differ), member id / members of a LeaveGroup request ("#<MemberID>/<member>.<member>").
+func bodyFormat(msg protocol.Message) string {
+	switch m := msg.(type) {
+	case *produce.Request:
+		seen := map[int8]bool{}
+		for _, t := range m.Topics {
+			for _, p := range t.Partitions {
+				if p.RecordSet.Version != 0 {
+					seen[p.RecordSet.Version] = true
+				}
+			}
+		}
+		var vs []string
+		for v := int8(0); v < 8; v++ {
+			if seen[v] {
+				vs = append(vs, strconv.Itoa(int(v)))
+			}
+		}
+		if len(vs) > 0 {
+			return "#m" + strings.Join(vs, ".")
+		}
+	case *describeconfigs.Request: // the request's options as they arrived (IncludeSynonyms exists from v1, IncludeDocumentation from v3)
+		return fmt.Sprintf("#s%dd%d", b2i(m.IncludeSynonyms), b2i(m.IncludeDocumentation))
+	case *describegroups.Request: // IncludeAuthorizedOperations exists from v3
+		return fmt.Sprintf("#a%d", b2i(m.IncludeAuthorizedOperations))
+	case *leavegroup.Request:
+		var ms []string
+		for _, x := range m.Members {
+			ms = append(ms, x.MemberID)
+		}
+		return "#" + dash(m.MemberID) + "/" + dash(strings.Join(ms, "."))
+	}
+	return ""
+}
+
+func b2i(b bool) int {
+	if b {
+		return 1
+	}
+	return 0
 }
 
 func (s *scenario) randomSpec() reqSpec {
@@ -1367,6 +1413,108 @@ func opVersionSweep(r *rand.Rand) {
 	}
 }
 
+// opVersionLadder: broker i advertises [0, i] for every API, so that every version of every leader / coordinator routed
+// API is the negotiated one at some broker (in particular the versions at which the BODY changes shape: Produce v3
+// switches the record format, LeaveGroup v3 the place of the member id); broker i leads partition i of "t" and
+// coordinates group "g<i>" / transactional id "x<i>".
+func opVersionLadder(r *rand.Rand) {
+	const n = 13
+	c := fakecluster.New()
+	parts := map[int32]*fakecluster.Part{}
+	for id := int32(0); id < n; id++ {
+		b := c.AddBroker(id)
+		b.Versions = map[protocol.ApiKey]fakecluster.VRange{}
+		for _, k := range fakecluster.RegisteredKeys() {
+			if k == protocol.ApiVersions || k == protocol.Metadata || k == protocol.FindCoordinator {
+				continue
+			}
+			b.Versions[k] = fakecluster.VRange{Min: 0, Max: int16(id)}
+		}
+		parts[id] = &fakecluster.Part{Leader: id, Replicas: []int32{id}, Isr: []int32{id}}
+		c.GroupCoord["g"+strconv.Itoa(int(id))] = id
+		c.TxnCoord["x"+strconv.Itoa(int(id))] = id
+	}
+	c.Controller = 0
+	c.Topics["t"] = &fakecluster.Topic{Parts: parts}
+	s := &scenario{r: r, c: c, boot: int32(r.Intn(n)), ttl: 5 * time.Second}
+	s.tr = &kafka.Transport{Dial: c.Dial, MetadataTTL: s.ttl, DialTimeout: 2 * time.Second, ClientID: "c12ladder"}
+	ctx, cancel := context.WithTimeout(context.Background(), 5*time.Second)
+	_, err := s.tr.RoundTrip(ctx, kafka.TCP(c.Brokers[s.boot].Addr()), &metadata.Request{})
+	cancel()
+	if err == nil {
+		for id := int32(0); id < n; id++ {
+			for _, pkg := range []string{"produce", "fetch", "listoffsets"} {
+				s.send(reqSpec{pkg: pkg, tps: []tp{{"t", []int32{id}}}})
+			}
+			g := "g" + strconv.Itoa(int(id))
+			for _, pkg := range groupPkgs {
+				if pkg == "describegroups" || pkg == "deletegroups" {
+					s.send(reqSpec{pkg: pkg, groups: []string{g}})
+				} else {
+					s.send(reqSpec{pkg: pkg, group: g})
+				}
+			}
+			for _, pkg := range txnPkgs {
+				s.send(reqSpec{pkg: pkg, txn: "x" + strconv.Itoa(int(id))})
+			}
+		}
+	}
+	s.close()
+}
+
+// recoverAfterFirstFailure: the pool's very first metadata refresh fails (failing dial, a request that is never answered,
+// a dropped connection) while nothing is cached yet, a later refresh succeeds: from then on metadata requests must be
+// answered from the cache again (not with the stale error) and produce must be routed.
+//
+//	recover ttl=<ms> first=<dialfail|stall|drop>  → "then=<ok|err> produce=<ok|err>"
+func recoverAfterFirstFailure(r *rand.Rand, ttl time.Duration, kind string) {
+	const tolerance = 1500 * time.Millisecond
+	c := fakecluster.New()
+	for id := int32(0); id < 3; id++ {
+		c.AddBroker(id)
+	}
+	c.Topics["t"] = &fakecluster.Topic{Parts: map[int32]*fakecluster.Part{0: {Leader: int32(r.Intn(3))}}}
+	switch kind {
+	case "dialfail":
+		c.DialFailures = 1
+	case "stall":
+		c.MetaFaults = []fakecluster.Fault{{Kind: "stall"}}
+	case "drop":
+		c.MetaFaults = []fakecluster.Fault{{Kind: "drop"}}
+	}
+	tr := &kafka.Transport{Dial: c.Dial, MetadataTTL: ttl}
+	defer func() { tr.CloseIdleConnections(); c.Close() }()
+	addr := kafka.TCP(c.Brokers[1].Addr())
+	meta := func() error {
+		ctx, cancel := context.WithTimeout(context.Background(), 2*time.Second)
+		defer cancel()
+		_, err := tr.RoundTrip(ctx, addr, &metadata.Request{TopicNames: []string{"t"}})
+		return err
+	}
+	meta() // creates the pool; its first refresh is the faulty one
+	// wait until a refresh has been answered normally, then the stale error must be gone
+	limit := time.Now().Add(2*ttl + tolerance)
+	for c.MetaServed() == 0 && time.Now().Before(limit) {
+		time.Sleep(time.Millisecond)
+	}
+	then := "err"
+	limit = time.Now().Add(ttl + tolerance)
+	for time.Now().Before(limit) {
+		if meta() == nil {
+			then = "ok"
+			break
+		}
+		time.Sleep(2 * time.Millisecond)
+	}
+	prod := "err"
+	ctx, cancel := context.WithTimeout(context.Background(), 2*time.Second)
+	if _, err := tr.RoundTrip(ctx, addr, build(reqSpec{pkg: "produce", tps: []tp{{"t", []int32{0}}}})); err == nil {
+		prod = "ok"
+	}
+	cancel()
+	emit(fmt.Sprintf("recover ttl=%d first=%s", ttl.Milliseconds(), kind), fmt.Sprintf("then=%s produce=%s", then, prod))
+}
+
 func main() {
 	defer out.Flush()
 	r := gen.New()
@@ -1383,10 +1531,14 @@ func main() {
 		opRoundTripMeta(gen.Seed()*100+int64(i), 25)
 	}
 	opVersionSweep(r)
+	opVersionLadder(r)
 	nFollow := 8
 	if gen.Thorough() {
 		nFollow = 40
 	}
 	followLeader(r, 100*time.Millisecond, nFollow)
 	followLeader(r, 60*time.Millisecond, nFollow/2)
+	for _, kind := range []string{"dialfail", "stall", "drop"} {
+		recoverAfterFirstFailure(r, 80*time.Millisecond, kind)
+	}
 }
